@@ -131,6 +131,72 @@ func c02ReadBack(c *kit.Case, d *gen.Doc, keyPrefix string) {
 		}
 		c.R.Count("unwritten_refs_checked", 1)
 	}
+
+	// A stream reader that is closed twice (an explicit Close and a deferred
+	// one) must not disturb the streams opened afterwards: two of them are then
+	// read side by side, in small pieces.
+	var streams []*gen.WObj
+	for _, o := range d.Objs {
+		if o.IsStream && len(o.Body) > 0 {
+			streams = append(streams, o)
+		}
+	}
+	if len(streams) >= 2 {
+		open := func(o *gen.WObj) io.ReadCloser {
+			got, err := r.Get(o.Ref, true)
+			stm, ok := got.(*pdf.Stream)
+			if err != nil || !ok {
+				return nil
+			}
+			rc, err := pdf.DecodeStream(r, nil, stm)
+			if err != nil {
+				return nil
+			}
+			return rc
+		}
+		if rc := open(streams[0]); rc != nil {
+			io.Copy(io.Discard, rc)
+			rc.Close()
+			rc.Close()
+		}
+		a, b := streams[len(streams)-1], streams[len(streams)-2]
+		ra, rb := open(a), open(b)
+		if ra != nil && rb != nil {
+			var ga, gb []byte
+			buf := make([]byte, 700)
+			for ra != nil || rb != nil {
+				if ra != nil {
+					n, err := ra.Read(buf)
+					ga = append(ga, buf[:n]...)
+					if err != nil {
+						ra.Close()
+						ra = nil
+					}
+				}
+				if rb != nil {
+					n, err := rb.Read(buf)
+					gb = append(gb, buf[:n]...)
+					if err != nil {
+						rb.Close()
+						rb = nil
+					}
+				}
+			}
+			if !bytes.Equal(ga, a.Body) || !bytes.Equal(gb, b.Body) {
+				fail("streams-side-by-side-after-a-double-close", "streams %s (filters %v) and %s (filters %v) read side by side after another stream reader was closed twice: got %d and %d bytes, written %d and %d",
+					a.Ref, a.Filters, b.Ref, b.Filters, len(ga), len(gb), len(a.Body), len(b.Body))
+			} else {
+				c.R.Count("stream_pairs_read_side_by_side", 1)
+			}
+		} else {
+			if ra != nil {
+				ra.Close()
+			}
+			if rb != nil {
+				rb.Close()
+			}
+		}
+	}
 }
 
 func canonStrings(obj pdf.Object) int {
